@@ -106,6 +106,10 @@ class Gen:
             right = rng.choice([N(2), N(4), N(-2), N(1, 2)])  # dyadic divisors keep values exact
         else:
             right = self.expr(depth - 1, extra)
+        if left["t"] == "n" and right["t"] == "n":
+            # arithmetic on two literals is folded by the symbolic simplifier in ways it cannot always
+            # print back ((- 0 -1)); such constant sub-expressions are kept out of the fragment
+            left = self.fluent(extra)
         return L(S(op), left, right)
 
     def cmp(self, extra=()):
